@@ -6,6 +6,9 @@
 #include <djinterop/engine/v2/engine_library.hpp>
 #include <djinterop/exceptions.hpp>
 
+#include <filesystem>
+#include <fstream>
+
 using namespace cv;
 namespace e = djinterop::engine;
 using tt = v2::track_table;
@@ -602,6 +605,42 @@ static void prop_c18_lists(const vf::Case& c, Ctx& ctx)
     ctx.nontrivial = nt || lists.size() >= 2;
 }
 
+namespace fs = std::filesystem;
+struct TableScratchDir
+{
+    std::string path;
+    TableScratchDir()
+    {
+        static int n = 0;
+        path = std::string(fs::exists("/dev/shm") ? "/dev/shm" : "/tmp") + "/verif-table-" + std::to_string(getpid()) + "-" + std::to_string(++n);
+        fs::remove_all(path);
+        fs::create_directories(path);
+    }
+    ~TableScratchDir()
+    {
+        std::error_code ec;
+        fs::remove_all(path, ec);
+    }
+};
+static std::string db2_digest(const std::string& dir)
+{
+    std::string o;
+    std::vector<std::string> names;
+    if (fs::exists(dir + "/Database2"))
+        for (auto& en : fs::directory_iterator(dir + "/Database2"))
+            if (en.is_regular_file())
+                names.push_back(en.path().filename().string());
+    std::sort(names.begin(), names.end());
+    for (auto& n : names)
+    {
+        std::ifstream f(dir + "/Database2/" + n, std::ios::binary);
+        std::stringstream ss;
+        ss << f.rdbuf();
+        o += n + "=" + std::to_string(ss.str().size()) + ":" + std::to_string(vf::fnv1a(ss.str())) + " ";
+    }
+    return o;
+}
+
 // ---------------------------------------------------------------------------------------------- C16 at table level
 // every observing operation of the 2.x table API, applied twice: no modifying statement, no change counter movement, same answers
 static void prop_c16_table(const vf::Case& c, Ctx& ctx)
@@ -609,7 +648,11 @@ static void prop_c16_table(const vf::Case& c, Ctx& ctx)
     S h(c[0]);
     auto schema = e::supported_v2_schemas[h.below(e::supported_v2_schemas.size())];
     ctx.label("schema=" + e::to_string(schema));
-    auto lib = v2::engine_library::create_temporary(schema);
+    bool on_disk = h.coin();
+    ctx.label(on_disk ? "on-disk" : "in-memory");
+    TableScratchDir sd;
+    std::string dir = sd.path + "/Engine Library";
+    auto lib = on_disk ? v2::engine_library::create(dir, schema) : v2::engine_library::create_temporary(schema);
     tt t = lib.track();
     auto pt = lib.playlist();
     auto et = lib.playlist_entity();
@@ -631,7 +674,18 @@ static void prop_c16_table(const vf::Case& c, Ctx& ctx)
             if (h.coin())
                 et.add_back(v2::playlist_entity_row{0, lids.back(), tid, uuid, 0, 0});
     }
-    auto observe_all = [&]() {
+    if (h.coin())
+    {
+        // rows the table API accepts although nothing refers to them properly: an entity of a list that does not exist, an entity of
+        // a track that does not exist (observers must leave them alone like everything else)
+        et.add_back(v2::playlist_entity_row{0, 4242, tids[0], uuid, 0, 0});
+        et.add_back(v2::playlist_entity_row{0, lids[0], 987654, uuid, 0, 0});
+        ctx.label("dangling-entities");
+    }
+    auto observe_lib = [&](v2::engine_library& L) {
+        tt t = L.track();
+        auto pt = L.playlist();
+        auto et = L.playlist_entity();
         std::string o;
         auto ids = t.all_ids();
         std::sort(ids.begin(), ids.end());
@@ -673,10 +727,15 @@ static void prop_c16_table(const vf::Case& c, Ctx& ctx)
         o += "roots=";
         for (auto x : pt.root_ids())
             o += std::to_string(x) + ",";
-        o += " find_root=" + r(pt.find_root_id("L0")) + " info=" + lib.information().get().uuid.substr(0, 4) + "\n";
-        lib.verify();
+        o += " find_root=" + r(pt.find_root_id("L0")) + " info=" + L.information().get().uuid.substr(0, 4) + "\n";
+        o += "orphans=";
+        for (auto x : et.track_ids(4242))
+            o += std::to_string(x) + ",";
+        o += "\n";
+        L.verify();
         return o;
     };
+    auto observe_all = [&]() { return observe_lib(lib); };
     auto& sh = vfshim::state();
     sh.record_sql = true;
     vfshim::reset_counters();
@@ -694,6 +753,39 @@ static void prop_c16_table(const vf::Case& c, Ctx& ctx)
     VF_CHECK(writes == 0, ctx.describe << ": observing through the table API executed " << writes << " modifying statement(s), first: " << first.substr(0, 200));
     VF_CHECK(ch0 == ch1, ctx.describe << ": sqlite3_total_changes moved during observation");
     VF_CHECK(o1 == o2, ctx.describe << ": repeated observation through the table API gives a different answer");
+    if (on_disk)
+    {
+        // release everything, then: exists(), load() + observation + verify() must leave the stored files byte-identical
+        {
+            v2::engine_library gone = std::move(lib);
+            (void)gone;
+        }
+        t = tt{nullptr};
+        pt = v2::playlist_table{nullptr};
+        et = v2::playlist_entity_table{nullptr};
+        std::string d0 = db2_digest(dir);
+        VF_CHECK(v2::engine_library::exists(dir), ctx.describe << ": engine_library::exists() false");
+        VF_CHECK(e::database_exists(dir), ctx.describe << ": database_exists() false");
+        std::string d1 = db2_digest(dir);
+        VF_CHECK(d0 == d1, ctx.describe << ": exists() changed the stored files: " << d0 << " -> " << d1);
+        {
+            auto again = v2::engine_library::load(dir);
+            std::string o3 = observe_lib(again);
+            VF_CHECK(o3 == o1, ctx.describe << ": observation after engine_library::load differs from the one before closing");
+        }
+        std::string d2 = db2_digest(dir);
+        VF_CHECK(d0 == d2, ctx.describe << ": engine_library::load + observation changed the stored files: " << d0 << " -> " << d2);
+        {
+            e::engine_schema loaded{};
+            auto db = e::load_database(dir, loaded);
+            (void)db.tracks();
+            (void)db.crates();
+            db.verify();
+        }
+        std::string d3 = db2_digest(dir);
+        VF_CHECK(d0 == d3, ctx.describe << ": load_database + listings changed the stored files: " << d0 << " -> " << d3);
+        ctx.label("files-compared");
+    }
 }
 
 int main(int argc, char** argv)
